@@ -225,7 +225,20 @@ pub struct Part {
 pub enum Mode {
     Run,
     Replay { family: String, case: J },
+    /// coverage-guided mode: only the random family of this name is active; its generator and check are driven by
+    /// byte buffers that a libFuzzer target sends over the bridge below (DESIGN 2.9)
+    Fuzz { family: String },
 }
+
+/// One request from the fuzz target: the raw bytes; `emit_only` = only decode the case and send its replay description back.
+pub struct FuzzReq {
+    pub data: Vec<u8>,
+    pub emit_only: bool,
+}
+/// reply: None = the case passed (or matched a listed known finding); Some(json) = replay description (+ message) of a failing case
+pub type FuzzReply = Option<String>;
+pub static FUZZ_BRIDGE: Mutex<Option<(std::sync::mpsc::Receiver<FuzzReq>, std::sync::mpsc::Sender<FuzzReply>)>> = Mutex::new(None);
+pub static FUZZ_FAMILY_SEEN: AtomicBool = AtomicBool::new(false);
 
 pub struct Runner {
     pub prop: &'static str,
@@ -345,7 +358,11 @@ impl Runner {
         let dir = work_dir(&root, prop);
         let _ = std::fs::create_dir_all(&dir);
         start_watchdog(prop);
-        let jname = if matches!(mode, Mode::Replay { .. }) { format!("j.replay.{}", std::process::id()) } else { format!("j.{shard}") };
+        let jname = match &mode {
+            Mode::Replay { .. } => format!("j.replay.{}", std::process::id()),
+            Mode::Fuzz { .. } => format!("j.fuzz.{}", std::process::id()),
+            Mode::Run => format!("j.{shard}"),
+        };
         Runner {
             prop,
             tier,
@@ -467,6 +484,9 @@ impl Runner {
     /// replay-mode and regression handling shared by all family kinds; returns true when the
     /// family body should be skipped (replay mode)
     fn prelude<C: Serialize + DeserializeOwned>(&mut self, family: &str, check: &(impl Fn(&C) -> Outcome + ?Sized)) -> bool {
+        if matches!(self.mode, Mode::Fuzz { .. }) {
+            return true;
+        }
         if let Mode::Replay { family: f, case } = &self.mode.clone() {
             if f == family {
                 self.replay_hit = true;
@@ -605,6 +625,12 @@ impl Runner {
         G: Fn(&mut Chooser) -> C,
         F: Fn(&C) -> Outcome,
     {
+        if let Mode::Fuzz { family: f } = &self.mode {
+            if f == family {
+                self.fuzz_loop(family, choices, &gen, &check);
+            }
+            return;
+        }
         if self.prelude::<C>(family, &check) {
             return;
         }
@@ -680,6 +706,37 @@ impl Runner {
             }
         }
         self.finish_family(family, "random", false, acc, fail);
+    }
+
+    /// serve the libFuzzer target: every byte buffer is expanded into a choice sequence, decoded by the family's own
+    /// generator and judged by the family's own check (known findings are accepted exactly as in a normal run)
+    fn fuzz_loop<C, G, F>(&self, family: &str, choices: usize, gen: &G, check: &F)
+    where
+        C: Serialize + DeserializeOwned,
+        G: Fn(&mut Chooser) -> C,
+        F: Fn(&C) -> Outcome,
+    {
+        let Some((rx, tx)) = FUZZ_BRIDGE.lock().unwrap().take() else { return };
+        FUZZ_FAMILY_SEEN.store(true, Ordering::SeqCst);
+        while let Ok(req) = rx.recv() {
+            let mut v = crate::chooser::bytes_to_choices(&req.data);
+            v.truncate(choices.max(1));
+            let c = gen(&mut Chooser::new(&v));
+            if req.emit_only {
+                let _ = tx.send(Some(serde_json::json!({"family": family, "case": c}).to_string()));
+                continue;
+            }
+            let mut acc = Acc::default();
+            let r = self.judge(&mut acc, family, &c, check, true);
+            let reply = match (r, acc.harness_panic) {
+                (_, Some(h)) => Some(serde_json::json!({"family": family, "case": c, "harness_panic": h}).to_string()),
+                (Err(m), None) => Some(serde_json::json!({"family": family, "case": c, "message": m}).to_string()),
+                (Ok(()), None) => None,
+            };
+            if tx.send(reply).is_err() {
+                break;
+            }
+        }
     }
 
     /// a family that runs on shard 0 only, in order (e.g. thread-stress configurations)
